@@ -84,6 +84,29 @@ def run(ctx):
                     {'api': api, 'pattern': p, 'flags': corr.flag_names(fv if api[0] == 'f' else gv), 'str': repr(rs or es), 'bytes': repr(rb or eb)})
             elif rs:
                 nontriv.add((p, api))
+    # RAWCHARS escapes that denote a byte >= 0x80: one Latin-1 unit in both modes (never a multi-byte encoding)
+    for v in list(range(0x80, 0x100, 7)) + [0xe9, 0xff, 0x80, 0xc3, 0xa9]:
+        for form in ('\\x%02x' % v, '[\\x%02x]' % v, '[!\\x%02x]' % v, 'a\\%03o' % v, '[\\x%02x-\\xff]x' % v, '*\\x%02x?' % v):
+            for nm in (chr(v), 'a' + chr(v), chr(v) + 'x', 'z', chr(0xc3) + chr(0xa9), 'q' + chr(v) + 'r'):
+                evals += 1
+                for api, fn in (('fnmatch', lambda P, N: Fm.fnmatch(N, P, flags=Fm.RAWCHARS | Fm.FORCEUNIX)),
+                                ('globmatch', lambda P, N: Gm.globmatch(N, P, flags=Gm.RAWCHARS | Gm.FORCEUNIX)),
+                                ('translate', lambda P, N: Fm.translate(P, flags=Fm.RAWCHARS | Fm.FORCEUNIX))):
+                    try:
+                        rs = fn(form, nm)
+                    except Exception as ex:
+                        rs = 'EXC ' + type(ex).__name__
+                    try:
+                        rb = fn(form.encode('latin-1'), nm.encode('latin-1'))
+                    except Exception as ex:
+                        rb = 'EXC ' + type(ex).__name__
+                    if api == 'translate' and not isinstance(rs, str):
+                        rs = tuple([x.encode('latin-1') for x in part] for part in rs)
+                        rb = tuple(list(part) for part in rb) if not isinstance(rb, str) else rb
+                    if rs != rb:
+                        ctx.counterexample('%s under RAWCHARS: pattern %r on %r gives %r for str but %r for bytes' % (api, form, nm, rs, rb),
+                                           {'api': api, 'pattern': form, 'name': nm, 'str': repr(rs), 'bytes': repr(rb)})
+                        break
     # non-ASCII bytes operate per byte (case-sensitive forms), equal to the Latin-1 str answer
     forms = ['[\x80-\xff]', '[!a]', '[[:alpha:]]', '[![:alpha:]]', '?', '*', '[z-a]', '[!z-a]', '[[:print:]\xe9]', '[\xe0-\xef]x', 'a?', '[[:ascii:]]', '[![:ascii:]]']
     for b in range(0x80, 0x100):
